@@ -2,8 +2,14 @@
    transpose is Model/Table.v transpose_t.  Written from biom/table.py (HEAD a8aadd7c):
    sort_order 2206-2225, sort 2293, align_to 3493-3530, copy 1954-1960, update_ids 1429-1466. *)
 From Coq Require Import List Arith ZArith Lia Bool.
-From BiomV Require Import Base.Tree Base.ListUtil Base.Matrix Model.Table.
+From BiomV Require Import Base.Tree Base.ListUtil Base.Matrix Model.Table Model.Orient.
 Import ListNotations.
+
+(* Every new table is built by the constructor, which normalises metadata (Model/Orient.v ctor_md:
+   a list whose entries are all None / empty dicts becomes None, otherwise None entries become
+   empty dicts). In-place paths assign attributes directly and do NOT normalise. *)
+Definition md_normal (md : option (list Tree)) : Prop := ctor_md md = md.
+Definition normal (t : table) : Prop := md_normal (omd t) /\ md_normal (smd t).
 
 (* errcheck with the default error profile, on a table built from consistent pieces:
    the only test that can fire here is a duplicated id (err.py _test_obsdup/_test_sampdup) *)
@@ -28,11 +34,12 @@ Definition take_md (fancy : list nat) (md : option (list Tree)) : option (list T
   option_map (fun l => map (fun i => nth i l (I 0%Z)) fancy) md.
 
 (* 2211-2223: the matrix fancy-indexed on the axis, [order] becomes the id list of the axis, the
-   other axis' ids and metadata and the type are passed on *)
+   other axis' ids and metadata and the type are passed on; BOTH metadata lists go through the
+   constructor (ctor_md): a selection whose metadata entries are all empty ends up without metadata *)
 Definition reorder (fancy : list nat) (order : list Z) (a : axis) (t : table) : table :=
   match a with
-  | Samp => mkT (oids t) order (perm_cols fancy (mat t)) (omd t) (take_md fancy (smd t)) (ttype t)
-  | Obs => mkT order (sids t) (perm_rows fancy (mat t)) (take_md fancy (omd t)) (smd t) (ttype t)
+  | Samp => mkT (oids t) order (perm_cols fancy (mat t)) (ctor_md (omd t)) (ctor_md (take_md fancy (smd t))) (ttype t)
+  | Obs => mkT order (sids t) (perm_rows fancy (mat t)) (ctor_md (take_md fancy (omd t))) (ctor_md (smd t)) (ttype t)
   end.
 
 (* [order] need not be a permutation: a shorter list selects, a repeated id makes the constructor's
@@ -49,8 +56,12 @@ Section Sort.
   Definition sort (a : axis) (t : table) : result table := sort_order (sortf (ids a t)) a t.
 End Sort.
 
-(* ---- copy (1954-1960): same ids, matrix, metadata, type --------------------------------- *)
-Definition copy (t : table) : table := mkT (oids t) (sids t) (mat t) (omd t) (smd t) (ttype t).
+(* ---- copy (1954-1960): same ids, matrix, type; metadata deep-copied and passed to the constructor - *)
+Definition copy (t : table) : table := mkT (oids t) (sids t) (mat t) (ctor_md (omd t)) (ctor_md (smd t)) (ttype t).
+
+(* ---- transpose (1208-1230) = Model/Table.v transpose_t, through the constructor ------------- *)
+Definition transpose_c (t : table) : table :=
+  mkT (sids t) (oids t) (transpose (nsamp t) (mat t)) (ctor_md (smd t)) (ctor_md (omd t)) NOTYPE.
 
 (* ---- align_to (3493-3530) ------------------------------------------------------------- *)
 Inductive amode := ASample | AObservation | ABoth | ADetect | AUnknown.
